@@ -14,6 +14,7 @@ RULES = {
     "C16.R3": "the zero-point and the int8 subtraction of the dequantizer stay in range (needs R2)",
     "C16.R5": "one-sided rows: the default symmetric optimizer and absmax_scale take the maximum of |x| on every path (a row whose extreme is negative still gets absmax/qmax)",
     "C16.R6": "magnitudes near the dtype maximum: the affine range width and the zero-point are computed without an intermediate that exceeds the extrema themselves (no raw `rmax - rmin` of opposite-sign extrema, no extremum multiplied by the code span)",
+    "C16.R7": "the error bounds of C01/C02 hold on the degenerate classes too: the quantizer pipelines of C01.R1 (divide by the stored scale, sanitise, round iff integer, clamp to the storage range for EVERY qtype, cast) and C02.R1/R3 (divide by the stored scale with no offset, round, add zero-point, clamp, cast; matching dequantizer) are re-checked here",
     "C16.R4": "dequantization multiplies codes by the scale only: a zero scale yields exactly zero, a finite scale finite values",
 }
 
@@ -85,7 +86,9 @@ def run(chk):
     chk.floor("C16.R1", n, 1, "float8 quantizer paths")
     c02.optimizer_range(chk, "C16")
     # R4: dequantizers are scale * codes (no division, no log...)
-    for cname in ("QBytesDequantizer", "QBitsDequantizer"):
+    for cname in ("QBytesDequantizer", "QBitsDequantizer", "AWQBitsDequantizer"):
+        if not repo.has_cls(cname):
+            continue
         dq = repo.cls(cname)
         fw = dq.own("forward")
         divs = [U(nd) for nd in ast.walk(fw) if isinstance(nd, ast.BinOp) and isinstance(nd.op, (ast.Div, ast.FloorDiv, ast.Pow))]
@@ -93,6 +96,10 @@ def run(chk):
         chk.require("C16.R4", f"{dq.mod.rel}:{fw.lineno}", not divs and not calls, f"{cname}.forward only multiplies and subtracts (divisions: {divs}, calls: {calls})", f"{cname}.forward", "dequantizer arithmetic", "a zero scale or zero code: division by zero on dequantization")
     abs_rule(chk)
     overflow_rule(chk)
+    from ..report import AliasedCheck
+    from . import c01
+    c01.run(AliasedCheck(chk, {"C01.R1": "C16.R7"}))
+    c02.run(AliasedCheck(chk, {"C02.R1": "C16.R7", "C02.R3": "C16.R7"}))
     chk.assume("x * 0 == 0 and finite * finite is finite within the dtype range; overflow near the dtype maximum is decided for the affine range width and zero-point only (C16.R6), where an intermediate can exceed the data by construction")
 
 
